@@ -402,6 +402,45 @@ fn run(ctx: &Ctx, rep: &Report) {
         let _ = std::fs::remove_dir_all(&dir);
     });
     let _ = std::fs::remove_dir_all(&base);
+    // sources whose stat() size is not their readable length (files of the proc file system): the size
+    // recorded for a file is the size of what is archived for it
+    for (k, src) in ["/proc/version", "/proc/filesystems", "/proc/sys/kernel/ostype"].iter().enumerate() {
+        if !std::path::Path::new(src).exists() {
+            continue;
+        }
+        rep.eval(1);
+        let built = guard(|| {
+            rpm::PackageBuilder::new("procsrc", "1", "MIT", "noarch", "proc source")
+                .compression([rpm::CompressionType::None, rpm::CompressionType::Gzip, rpm::CompressionType::Zstd][k % 3])
+                .with_file(src, rpm::FileOptions::new(format!("/opt/proc/f{k}")).mode(rpm::FileMode::regular(0o644)))
+                .and_then(|b| b.build())
+        });
+        match built {
+            Ok(Ok(pkg)) => {
+                let r = guard(|| -> Result<Option<String>, rpm::Error> {
+                    for f in pkg.files()? {
+                        let f = f?;
+                        if f.content.len() as u64 != f.metadata.size as u64 {
+                            return Ok(Some(format!("{}: {} bytes yielded, the header records a size of {}", f.metadata.path.display(), f.content.len(), f.metadata.size)));
+                        }
+                        let d = crate::util::sha256_hex(&f.content);
+                        if f.metadata.digest.as_ref().map(|x| x.as_hex().to_string()) != Some(d.clone()) {
+                            return Ok(Some(format!("{}: content hashes to {d}, the header records {:?}", f.metadata.path.display(), f.metadata.digest.as_ref().map(|x| x.as_hex().to_string()))));
+                        }
+                    }
+                    Ok(None)
+                });
+                match r {
+                    Ok(Ok(None)) => rep.count("proc_sources.consistent", 1),
+                    Ok(Ok(Some(what))) => rep.violation("size-or-digest:proc-source", format!("[built from {src}] {what}"), json!({"source": src}), 0),
+                    Ok(Err(e)) => rep.violation(format!("iteration-error:proc-source:{}", crate::util::par::normalize_msg(&e.to_string())), format!("[built from {src}] {e}"), json!({"source": src}), 0),
+                    Err(p) => rep.violation(format!("panic:files:{}", p.site()), p.message, json!({"source": src}), 0),
+                }
+            }
+            Ok(Err(_)) => rep.count("proc_sources.refused", 1),
+            Err(p) => rep.violation(format!("panic:build:{}", p.site()), p.message, json!({"source": src}), 0),
+        }
+    }
     // foreign packages: assets
     for rel in ASSETS {
         let Ok(bytes) = std::fs::read(ctx.asset(rel)) else { continue };
